@@ -22,7 +22,9 @@ RULE = ('correlations with 0-15 Cp points, H/S present / absent / 0.0 / '
         'temperature {K, mK, kK} x two loading routes (tagged document, '
         'library file); plus every group of the 9 shipped libraries. '
         'Non-trivial = a (correlation, unit choice) whose text was reloaded '
-        'by both routes and compared field by field; distinct by data+units.')
+        'by both routes and compared field by field; distinct by data+units.'
+        ' Construction forms: Python floats, numpy scalars, Python ints, '
+        'references merged in with update(), and the YAML loader. ')
 ASSUMPTIONS = [
     '6 significant digits are written for dimensional values and '
     'temperatures: compared to 2e-5 relative; non-dimensional values exactly',
